@@ -605,10 +605,14 @@ class Plan:
     pass
 
 
-def build_plan(ctx, case, linemode, par):
+def build_plan(ctx, case, linemode, par, envs=()):
+    """envs: environment names (keys of ENV_VARIANTS) wanted for this invocation; P.envs maps each to the variant in
+    which the undisturbed run is the plain one (same events, same files, finishes), or None"""
     stage_jobs = [{"case": case, "kind": "stage", "invocations": inv} for inv in case.stages()]
     plain = {"case": case, "kind": "trace", "at": -1, "sig": "SIGINT", "linemode": linemode}
-    res = run_jobs(stage_jobs + [plain, plain], par)
+    variants = [v for e in envs for v in ENV_VARIANTS[e]]
+    res = run_jobs([dict(plain, env=v) for v in variants] + stage_jobs + [plain, plain], par)
+    env_res, res = dict(zip(variants, res[:len(variants)])), res[len(variants):]
     P = Plan()
     P.case, P.linemode = case, linemode
     P.problems = []          # every one is a broken harness expectation (reported as a c20.plan disagreement)
@@ -661,6 +665,17 @@ def build_plan(ctx, case, linemode, par):
         P.problems.append("run has %d per-file units, expected %d" % (len(spans), len(P.stage_snaps) - 1))
         P.weak = True
     P.mprog = [tok_model(t) for t in P.prog]
+    P.envs = {}
+    for e in envs:
+        P.envs[e] = None
+        for v in ENV_VARIANTS[e]:
+            r = env_res[v]
+            if r.get("trace") == P.prog and r.get("outcome") == "Finished" and r.get("snap") == P.stage_snaps[-1]:
+                P.envs[e] = v
+                break
+        if P.envs[e] is None:
+            # not a C20 matter: the tool cannot do its undisturbed work in this environment (e.g. it prints to stdout)
+            ctx.count("environment-unusable:%s/%s" % (case.id, e))
     return P
 
 
@@ -678,8 +693,8 @@ def expected_stages(P, t):
     return [prev], None
 
 
-def check_run(ctx, P, signame, t, r, mode):
-    """D + R2 on one signalled run.  Returns True if the property held.
+def check_run(ctx, P, signame, t, r, mode, env="plain"):
+    """D + R2 on one signalled run (env: the process environment variant it ran in).  Returns True if the property held.
 
     D judges the run by the property statement alone -- the files afterwards against the undisturbed runs' files, the
     exit status, and which file operations still happened -- whatever the recording of block()/_handler shows (handler
@@ -688,8 +703,9 @@ def check_run(ctx, P, signame, t, r, mode):
     replaces D's verdict."""
     case = P.case
     data = {"runner": "c20.tool", "case": case.id, "tool": case.tool, "sub": case.sub, "argv": case.argv(), "signal": signame,
-            "index": t, "mode": mode, "event": P.prog[t] if 0 <= t < len(P.prog) else None}
-    tag = "%s %s" % (case.id, mode)
+            "index": t, "mode": mode, "event": P.prog[t] if 0 <= t < len(P.prog) else None, "environment": env,
+            "environment_text": ENV_TEXT.get(env, env)}
+    tag = "%s %s%s" % (case.id, mode, "" if env == "plain" else " [" + env + "]")
     use_model = getattr(ctx, "use_model", True)
 
     reported = []
@@ -703,7 +719,7 @@ def check_run(ctx, P, signame, t, r, mode):
 
     def viol(what, **extra):
         # one violation per run, one per (case, kind) per check: a single broken schedule is enough to replay
-        key = "%s: %s" % (case.id, what)
+        key = "%s: %s%s" % (case.id, what, "" if env == "plain" else " [environment: %s]" % ENV_TEXT.get(env, env))
         if not reported and key not in P.reported:
             P.reported.add(key)
             ctx.violation("oracle", key, dict(data, **extra))
@@ -764,6 +780,11 @@ def check_run(ctx, P, signame, t, r, mode):
     # outside a file modification "the signal terminates the tool immediately": Python's own way of dying of a SIGINT
     # (KeyboardInterrupt out of entry_point) is such a termination too; inside, the tool must finish and REPORT the abort
     died = r["outcome"] == "Crashed" and r.get("exc") == "KeyboardInterrupt" and signame == "SIGINT"
+    # where the report itself cannot be written (stderr unwritable) a failing end of any kind is enough -- the FILES are
+    # judged above all the same
+    if env in UNWRITABLE and r["outcome"] == "Crashed":
+        aborted = True
+        ctx.count("abort-report-unwritable")
     if not aborted and not (died and (weak or inunit is None)):
         ok = viol("run did not end in an aborting SystemExit after the signal (ended %s)" % ended, handler_ran=handled)
     if not weak:
@@ -799,8 +820,9 @@ def check_run(ctx, P, signame, t, r, mode):
     ctx.corr_cases += 1
     cut = len(stripped) < len(P.prog)
     ctx.count("cut-short" if cut else "ran-to-end-then-exit")
-    ctx.case((case.id, signame, t, mode),
-             {"case": case.id, "signal": signame, "index": t, "event": P.prog[t], "inside_block": r["nosig_at"], "outcome": r["outcome"],
+    ctx.count("environment:" + env)
+    ctx.case((case.id, signame, t, mode, env),
+             {"case": case.id, "signal": signame, "index": t, "environment": env, "event": P.prog[t], "inside_block": r["nosig_at"], "outcome": r["outcome"],
               "events_run": len(trace), "of": len(P.prog)} if ctx.evaluations % 97 == 0 else None)
     ctx.count("delivered-%s" % ("inside-block" if r["nosig_at"] else "outside-block"))
     ctx.count("at:" + ("F" if P.prog[t][0] == "F" else P.prog[t]))
